@@ -120,6 +120,14 @@ def run(out, tier, seed):
                 text2 = docwriters.write(fm, doc2) if fm in QUAD_FMTS else text_of(fm, other, doc2)
                 mk = lambda d, t, n: {"op": "parse", "fmt": fm, "docname": n, "doc": d, "text": t, "how": how, "reseed": 7 if (di + hi) % 2 == 0 else 0}
                 jobs.append({"cfg": {}, "events": [{"op": "sink", "kind": kind, "content": []}, mk(doc, text, dn), mk(doc, text, dn), mk(doc2, text2, other), mk(doc, text, dn)]})
+    # SPARQL LOAD: the document into the graph that carries its name, loaded again (a refresh) and next to another document
+    for di, dn in enumerate(names):
+        for fm in ("turtle", "nt", "xml"):
+            for kind in sinks:
+                other = names[(di + 1) % len(names)]
+                mk = lambda d, t, n: {"op": "parse", "fmt": fm, "docname": n, "doc": d, "text": t, "how": "sparql_load"}
+                jobs.append({"cfg": {}, "events": [{"op": "sink", "kind": kind, "content": []}, mk(DOCS[dn], text_of(fm, dn, DOCS[dn]), dn), mk(DOCS[dn], text_of(fm, dn, DOCS[dn]), dn),
+                                                   mk(DOCS[other], text_of(fm, other, DOCS[other]), other), mk(DOCS[dn], text_of(fm, dn, DOCS[dn]), dn)]})
     qnames = list(QDOCS)
     for a, b in itertools.product(qnames + names[:2], repeat=2):
         for fi, fm in enumerate(QUAD_FMTS):
